@@ -64,7 +64,7 @@ func GenC14Case(seed uint64, idx int) C14Case {
 		classes := genClasses(r)
 		c := C14Case{Family: "mixed:" + fam, Datum: DatumSpec{Gen: "mixed:" + fam + ":" + classes, Seed: 1}}
 		if r.Chance(0.4) {
-			c.Datum.Gen += []string{":num", ":num", ":pre", ":pre", ":case", ":big"}[r.Intn(6)]
+			c.Datum.Gen += []string{":num", ":num", ":pre", ":pre", ":case", ":big", ":empty"}[r.Intn(7)]
 		}
 		if r.Chance(0.35) {
 			// a used object: it has already seen a map of the same size whose key set differs in one name
@@ -818,7 +818,7 @@ func MinimizeC14(c C14Case, seed uint64, tier string) (C14Case, *C14Diff) {
 	parts := strings.SplitN(c.Datum.Gen, ":", 3)
 	classes := parts[2]
 	suffix := ""
-	for _, sfx := range []string{":alt", ":num", ":pre", ":case", ":big"} {
+	for _, sfx := range []string{":alt", ":num", ":pre", ":case", ":big", ":empty"} {
 		if strings.HasSuffix(classes, sfx) {
 			suffix = sfx + suffix
 			classes = strings.TrimSuffix(classes, sfx)
